@@ -29,6 +29,7 @@ class Ctx:
         self.scope = dict(scope or {})
         self.default_scope = default_scope
         self.enums = dict(enums or {})          # name -> [member names]: enumerations in both modes
+        self.infinite_sorts = set()              # sorts that stay uninterpreted in finite scope (targets of injections from infinite sorts)
         self.uid = next(_uid)
         self._sorts = {}
         self._consts = {}                        # sort name -> list of z3 consts (finite / enum)
@@ -67,7 +68,7 @@ class Ctx:
         if name in self.enums:
             s, cs = z3.EnumSort(f'{name}!{self.uid}', [f'{name}.{m}' for m in self.enums[name]])
             self._consts[name] = list(cs)
-        elif self.finite:
+        elif self.finite and name not in self.infinite_sorts:
             n = self.scope.get(name, self.default_scope)
             s, cs = z3.EnumSort(f'{name}!{self.uid}', [f'{name.lower()}{i}' for i in range(n)])
             self._consts[name] = list(cs)
